@@ -125,6 +125,19 @@ func c02Case(c *fw.Case, t *pdus.Type, force, class int, g *gridCell) {
 	ctx := func() string { return pdus.Describe(t, v) }
 	// --- encoder side
 	p := pdus.Build(t, v)
+	if c.R.Bool() {
+		pdus.SetHeaderLength(t, p, uint32(c.R.Pick(1, 12, 16, 0xffff, int(c.R.U32()>>1))))
+	}
+	if g == nil && c.R.Chance(1, 4) {
+		// a reused object: it has already been encoded once with other values (e.g. the previous segment of a long
+		// message); the image of the second encode must be the layout of the values it holds NOW
+		old, _ := pdus.Gen(t, c.R, -1, 0)
+		q := pdus.Build(t, old)
+		if _, e0, s0, _ := encode(c, q); s0 == "" && e0 == nil {
+			pdus.Fill(t, q, v)
+			p = q
+		}
+	}
 	b, err, psig, pd := encode(c, p)
 	switch {
 	case psig != "":
